@@ -989,7 +989,6 @@ func c05TransportBlocking(c *Ctx) {
 	}
 }
 
-
 func negOp(op token.Token) token.Token {
 	switch op {
 	case token.EQL:
